@@ -2408,3 +2408,176 @@ def rule_recursion_bound(ctx, m, file_suffix, rid="REC-bound", floor=1, known_ok
     if not full_cyc:
         r.broke("%s: no recursion among the text-taking functions was found (the parsers are known to recurse)" % file_suffix)
     return r
+
+
+def rule_after_countdown(ctx, m, files, rid="ZERO-after", floor=1):
+    """ZERO-after: `while (v != 0) { ... }` without a break leaves v == 0.  A later test of v (a comparison, or a mask with &)
+    before v is assigned again is therefore a constant -- whatever it was meant to ask about the ORIGINAL count (its parity, its
+    size) has to be asked before the loop consumed it ((-1.5)^3 came out positive when `num_right & 1` moved behind the
+    square-and-multiply loop).  CFG: from the false edge of the loop condition, forward until an assignment of v."""
+    r = Rule(rid, "a counter that a loop ran down to zero is not tested afterwards as if it still held the count", floor=floor)
+    n_loops = 0
+    for f in m.functions:
+        if f.inst or not f.cfg or not any(f.file.endswith("/" + x) for x in files):
+            continue
+        blocks = f.blocks()
+        par = f.parents()
+        for w in astq.nodes_of(f, "WhileStmt"):
+            cn = f.nodes[f.strip(f.nodes[w]["cond"])]
+            v = None
+            if cn["k"] == "BinaryOperator" and cn["op"] in ("!=", ">"):
+                a_, b_ = f.nodes[f.strip_casts(cn["ch"][0])], cn["ch"][1]
+                if a_["k"] == "DeclRefExpr" and a_.get("tk") in ("uint", "sint") and f.const_value(f.strip_casts(b_)) == 0 and (cn["op"] == "!=" or a_.get("tk") == "uint"):
+                    v = a_
+            if v is None or v.get("dk") not in ("var", "parm", "param", None):
+                continue
+            body = f.nodes[w].get("body", -1)
+            # a break that leaves THIS loop: not decided
+            def own_break(x):
+                up = par.get(x)
+                while up is not None and up != w:
+                    if f.nodes[up]["k"] in ("WhileStmt", "DoStmt", "ForStmt", "SwitchStmt"):
+                        return False
+                    up = par.get(up)
+                return up == w
+            if any(f.nodes[x]["k"] in ("BreakStmt", "ReturnStmt", "GotoStmt") and (f.nodes[x]["k"] != "BreakStmt" or own_break(x)) and f.nodes[x]["k"] == "BreakStmt" for x in f.walk(body)):
+                continue
+            # modified in the loop?
+            def writes_v(x):
+                n_ = f.nodes[x]
+                if n_["k"] == "UnaryOperator" and n_["op"] in ("++", "--"):
+                    return f.nodes[f.strip(n_["ch"][0])].get("d") == v["d"]
+                if n_["k"] in ("BinaryOperator", "CompoundAssignOperator") and n_.get("op", "").endswith("=") and n_["op"] not in ("==", "!=", "<=", ">="):
+                    return f.nodes[f.strip(n_["ch"][0])].get("d") == v["d"]
+                return False
+            if not any(writes_v(x) for x in f.walk(body)):
+                continue
+            # exit edge
+            exits = []
+            cond_id = f.strip(f.nodes[w]["cond"])
+            for b in blocks.values():
+                for (s_, kind, payload) in dataflow.successors(f, b):
+                    if kind == "false" and payload is not None and f.strip(payload) == cond_id:
+                        exits.append(s_)
+            if not exits:
+                continue
+            n_loops += 1
+            ctx.note_fn(f)
+            bad = None
+            seen, work = set(), list(exits)
+            while work and bad is None:
+                bid = work.pop()
+                if bid in seen:
+                    continue
+                seen.add(bid)
+                killed = False
+                for e in blocks[bid]["el"]:
+                    x = e.get("n")
+                    if not isinstance(x, int) or e.get("k"):
+                        continue
+                    if x in set(f.walk(w)):
+                        # back inside the loop (an enclosing loop iterates): v is live again
+                        killed = True
+                        break
+                    if writes_v(x):
+                        killed = True
+                        break
+                    n_ = f.nodes[x]
+                    if n_["k"] == "BinaryOperator" and n_["op"] in ("==", "!=", "<", "<=", ">", ">=", "&"):
+                        for o in n_["ch"]:
+                            on = f.nodes[f.strip_casts(o)]
+                            while on["k"] == "ParenExpr":
+                                on = f.nodes[f.strip_casts(on["ch"][0])]
+                            if on["k"] == "DeclRefExpr" and on.get("d") == v["d"]:
+                                bad = x
+                    if bad is not None:
+                        break
+                if bad is not None or killed:
+                    continue
+                for (s_, k_, p_) in dataflow.successors(f, blocks[bid]):
+                    work.append(s_)
+            r.ob(f.q, "after `while (%s)`" % f.text(f.nodes[w]["cond"])[:40], bad is None, "%s is not tested again before it is assigned" % v["n"] if bad is None else
+                 "`%s` is evaluated after the loop ran %s down to zero: it is a constant there, not a statement about the count the loop started with"
+                 % (f.text(bad)[:60], v["n"]), f.loc(bad) if bad is not None else f.loc(w))
+    if n_loops == 0:
+        r.broke("no count-down loop found in %s" % ", ".join(files))
+    return r
+
+
+def rule_scanner_result(ctx, m, files, rid="ERR-scan", floor=2):
+    """ERR-scan: the scanners of this code base report "the text here is not what I was asked to read" through a bool result
+    while they move the caller's cursor (a by-reference integer parameter).  A caller that throws the result away accepts whatever
+    the scanner stopped at ("0e" and "0e+" became numbers once the result of parseExponent was ignored for a zero mantissa).
+    Rule: every call of a bool-returning function of these files that takes a cursor by non-const reference is used: it is not an
+    expression statement of its own and not cast to void."""
+    r = Rule(rid, "the bool result of a scanner that moves the caller's cursor is never discarded", floor=floor)
+    scanners = {}
+    for g in m.functions:
+        if g.inst or not any(g.file.endswith("/" + x) for x in files):
+            continue
+        if (g.d.get("ret") or "").strip() != "bool":
+            continue
+        if any(p_.get("ref") and not p_.get("pconst") and p_.get("tk") in ("uint", "sint") and "const" not in (p_.get("t") or "") for p_ in g.params):
+            scanners.setdefault(g.name.split("<")[0], []).append(g)
+    if not scanners:
+        r.broke("no bool scanner with a by-reference cursor found in %s" % ", ".join(files))
+        return r
+    for f in m.functions:
+        if f.inst or not f.cfg or not any(f.file.endswith("/" + x) for x in files):
+            continue
+        par = f.parents()
+        for c in astq.calls(f):
+            nm = f.call_simple_name(c)
+            if nm not in scanners or not any(len(g.params) >= len(f.call_args(c)) for g in scanners[nm]):
+                continue
+            ctx.note_fn(f)
+            up, child = par.get(c), c
+            while up is not None and f.nodes[up]["k"] in ("ParenExpr", "ImplicitCastExpr", "ExprWithCleanups"):
+                child, up = up, par.get(up)
+            un = f.nodes[up] if up is not None else None
+            discarded = un is None or un["k"] in ("CompoundStmt",) or \
+                (un["k"] in ("IfStmt", "WhileStmt", "ForStmt", "DoStmt") and child != f.strip(un.get("cond", -1)) and child != un.get("cond", -1) and child in (un.get("then"), un.get("else"), un.get("body"), un.get("inc"), un.get("init"))) or \
+                (un["k"] in ("CStyleCastExpr", "CXXStaticCastExpr", "CXXFunctionalCastExpr") and "void" in (un.get("t") or "")) or \
+                un["k"] in ("CaseStmt", "DefaultStmt", "LabelStmt")
+            r.ob(f.q, f.text(c)[:60], not discarded, "the result is used (%s)" % un["k"] if not discarded else
+                 "the result of %s is thrown away: the caller goes on with whatever the scanner stopped at" % nm, f.loc(c))
+    return r
+
+
+def rule_pointer_follow(ctx, m, rid="PTR-follow", floor=30):
+    """PTR-follow: a Value of kind ValuePtr stands for the value it points to, and that value may be a pointer again.  Every
+    public member of Value answers for a pointer by asking the pointee -- `value_->m(...)` -- and the answer is only right for a
+    chain of pointers when m follows pointers itself.  Sibling cross-check over all delegations through value_: the member called
+    on the pointee has a ValuePtr case of its own (its body reads value_), or is the caller itself.  (IsUndefined() asked the
+    one-level private predicate: a member pointing to a pointer to an Undefined value was stringified as `"b":,`.)"""
+    r = Rule(rid, "what a Value asks of its pointee follows pointers as well", floor=floor)
+    members = {}
+    for g in m.functions:
+        if not g.inst and g.cls == "Qentem::Value":
+            members.setdefault(g.name.split("<")[0], []).append(g)
+
+    def follows(name):
+        gs = members.get(name, [])
+        return bool(gs) and all(any(g.nodes[x].get("n") == "value_" for x in g.walk()) for g in gs if g.cfg)
+    for f in m.functions:
+        if f.inst or f.cls != "Qentem::Value" or not f.cfg or f.d.get("access") not in ("public", None):
+            continue
+        for c in astq.calls(f):
+            rc = f.call_receiver(c)
+            base = None
+            if rc is not None:
+                base = f.nodes[f.strip(rc)].get("n")
+            else:
+                head = f.text(c).split("(", 1)[0]
+                if "value_->" in head.replace(" ", "") or "value_." in head:
+                    base = "value_"
+            if base != "value_":
+                continue
+            nm = (f.call_simple_name(c) or "").split("<")[0]
+            if not nm or nm not in members:
+                continue
+            ctx.note_fn(f)
+            ok = nm == f.name.split("<")[0] or follows(nm)
+            r.ob(f.sig, f.text(c)[:50], ok, "%s follows pointers itself" % nm if ok else
+                 "%s looks at the pointee's own kind only: for a pointer to a pointer the answer is about the inner pointer, not about the value (a member pointing to a pointer to an Undefined value is stringified as `\"b\":,`)" % nm, f.loc(c))
+    return r
